@@ -84,10 +84,15 @@ func traceTokens(evs []traceEvent) (tokens []string, senders []string) {
 		case w == "su: startRenderer":
 			tokens = append(tokens, "su:start")
 		case w == "su: spawnInit":
+			// (recorded BEFORE the go statement: the hand-over goroutine may have finished - and
+			// recorded `init: exit` - before Run reaches the next trace point, so the observation
+			// "Init has returned, its command is about to be handed over" belongs here)
 			spawnedInit = true
-		case w == "su: initDone":
-			_ = spawnedInit
 			tokens = append(tokens, "su:init")
+		case w == "su: initDone":
+			if !spawnedInit {
+				tokens = append(tokens, "su:init")
+			}
 		case w == "su: firstViewDone":
 			tokens = append(tokens, "su:view")
 		case w == "reader: spawn":
